@@ -124,6 +124,7 @@ theorem done_contrib (it : Item) (h : it.done = true) :
 @[simp] theorem take_ret (it : Item) : it.take.ret = it.ret := by unfold Item.take; split <;> rfl
 @[simp] theorem take_cret (it : Item) : it.take.cret = it.cret := by unfold Item.take; split <;> rfl
 @[simp] theorem take_http (it : Item) : it.take.http = it.http := by unfold Item.take; split <;> rfl
+@[simp] theorem take_detail (it : Item) : it.take.detail = it.detail := by unfold Item.take; split <;> rfl
 @[simp] theorem take_executing (it : Item) : it.take.executing = it.executing := by unfold Item.take; split <;> rfl
 @[simp] theorem take_canceled (it : Item) : it.take.canceled = it.canceled := by unfold Item.take; split <;> rfl
 @[simp] theorem take_hasFn (it : Item) : it.take.hasFn = it.hasFn := by unfold Item.take; split <;> rfl
@@ -235,7 +236,7 @@ theorem itemStep_rep_panic {env : Env} {it it' : Item} {ch : Bool} {e : Eff}
 /-- Last pc of the program of each kind. -/
 def Item.pcMax (it : Item) : Nat :=
   match it.kind with
-  | .runWorker | .startWorker | .hook | .api _ => 5
+  | .runWorker | .startWorker | .hook | .api _ _ => 5
   | .svc => 7
   | .task => 8
   | .mt _ => 7
@@ -249,7 +250,8 @@ structure Item.Local (it : Item) : Prop where
   retW : (it.kind = .runWorker ∨ it.kind = .startWorker ∨ it.kind = .hook) → 3 ≤ it.pc →
     it.ret = some (recoverRet .worker it.cur).1
   retM : ∀ b, it.kind = .mt b → 4 ≤ it.pc → it.ret = some (recoverRet .microtask it.cur).1
-  api : ∀ aw, it.kind = .api aw → 3 ≤ it.pc → it.ret = some .nil ∧ it.http = httpStatus aw it.cur
+  api : ∀ aw dev, it.kind = .api aw dev → 3 ≤ it.pc → it.ret = some .nil ∧ it.http = httpStatus aw it.cur ∧
+    (it.cur.isPanic = true → it.detail = dev)
   exec : it.kind = .task → (it.executing = true ↔ 1 ≤ it.pc ∧ it.pc ≤ 6)
   cretC : it.kind = .ctrl → it.hasFn = true → 3 ≤ it.pc → it.cret = some (recoverCtrl it.cur).1
   cretS : it.kind = .stop → it.hasFn = true → 6 ≤ it.pc → it.cret = some (recoverCtrl it.cur).1
@@ -302,11 +304,13 @@ theorem itemStep_retM {env : Env} {it it' : Item} {ch : Bool} {e : Eff}
 
 theorem itemStep_api {env : Env} {it it' : Item} {ch : Bool} {e : Eff}
     (h : itemStep env it ch = some (it', e))
-    (hl : ∀ aw, it.kind = .api aw → 3 ≤ it.pc → it.ret = some .nil ∧ it.http = httpStatus aw it.cur) :
-    ∀ aw, it'.kind = .api aw → 3 ≤ it'.pc → it'.ret = some .nil ∧ it'.http = httpStatus aw it'.cur := by
+    (hl : ∀ aw dev, it.kind = .api aw dev → 3 ≤ it.pc → it.ret = some .nil ∧ it.http = httpStatus aw it.cur ∧
+      (it.cur.isPanic = true → it.detail = dev)) :
+    ∀ aw dev, it'.kind = .api aw dev → 3 ≤ it'.pc → it'.ret = some .nil ∧ it'.http = httpStatus aw it'.cur ∧
+      (it'.cur.isPanic = true → it'.detail = dev) := by
   item_cases_cur h it
   all_goals (cases h)
-  all_goals (simp_all [httpStatus])
+  all_goals (simp_all [httpStatus, Outcome.isPanic])
 
 theorem itemStep_exec {env : Env} {it it' : Item} {ch : Bool} {e : Eff}
     (h : itemStep env it ch = some (it', e))
